@@ -113,14 +113,38 @@ func c09rNewWorld(t *testing.T, o *vOut, r *vRand) *c09rWorld {
 			pr.Conf.PeerAsn = glob.Asn
 			pr.RouteReflector = &api.RouteReflector{RouteReflectorClient: true}
 		}
+		// the session's local AS and the peer's AS / type in both of the ways the code can learn them:
+		// a per-neighbor local-as override, and a neighbor without configured peer-as whose AS and
+		// type are set when the session is established (what fsm.stateChange(ESTABLISHED) does)
+		if rp.kind == "ebgp" && r.chance(25) {
+			pr.Conf.LocalAsn = 65020
+			rp.kind += "+local-as"
+		}
+		remoteAS := pr.Conf.PeerAsn
+		learned := (strings.HasPrefix(rp.kind, "ebgp") && rp.kind != "ebgp-confed-member" || rp.kind == "ibgp") && r.chance(30)
+		if learned {
+			pr.Conf.PeerAsn = 0
+			rp.kind += "+as-from-open"
+		}
 		if err := w.s.AddPeer(context.Background(), &api.AddPeerRequest{Peer: pr}); err != nil {
 			t.Fatalf("AddPeer: %v", err)
 		}
 		w.mgmt(func() {
 			rp.p = w.s.neighborMap[rp.addr]
+			if learned {
+				rp.p.fsm.lock.Lock()
+				c := rp.p.fsm.pConf.ReadCopy()
+				c.State.PeerAs = remoteAS
+				c.State.PeerType = oc.PEER_TYPE_EXTERNAL
+				if c.Config.LocalAs == remoteAS {
+					c.State.PeerType = oc.PEER_TYPE_INTERNAL
+				}
+				rp.p.fsm.pConf.Update(&c)
+				rp.p.fsm.lock.Unlock()
+			}
 			conf := rp.p.fsm.pConf.ReadOnly()
 			w.g = rp.p.fsm.gConf
-			rp.p.peerInfo.Store(table.NewPeerInfo(w.g, conf, conf.Config.PeerAs, conf.Config.LocalAs,
+			rp.p.peerInfo.Store(table.NewPeerInfo(w.g, conf, conf.State.PeerAs, conf.Config.LocalAs,
 				c09IP(10, 1, 0, 10+i), w.g.Config.RouterId, rp.addr, c09IP(10, 0, 0, 1)))
 		})
 		w.peers = append(w.peers, rp)
@@ -171,7 +195,7 @@ func (w *c09rWorld) attrs(rp *c09rPeer) []bgp.PathAttributeInterface {
 	if conf.State.PeerType == oc.PEER_TYPE_EXTERNAL || r.chance(60) {
 		first := []uint32{}
 		if conf.State.PeerType == oc.PEER_TYPE_EXTERNAL {
-			first = append(first, conf.Config.PeerAs)
+			first = append(first, conf.State.PeerAs)
 		}
 		for i := r.intn(3); i > 0; i-- {
 			first = append(first, pick())
@@ -369,7 +393,7 @@ func (w *c09rWorld) corpusAttrs(rp *c09rPeer, own int) []bgp.PathAttributeInterf
 	w.seq++
 	as := []uint32{}
 	if conf.State.PeerType == oc.PEER_TYPE_EXTERNAL {
-		as = append(as, conf.Config.PeerAs)
+		as = append(as, conf.State.PeerAs)
 	}
 	for i := 0; i < own; i++ {
 		as = append(as, conf.Config.LocalAs)
